@@ -30,6 +30,8 @@ def run(chk):
     chk.level = "other"
     chk.technique = ("each definitional constructor/member located by its parameter *types*, evaluated to terms, normalised with sympy "
                      "(positive symbols, exact rationals, radicals) and compared with the textbook formula from oracle/formulas.py")
+    chk.rule("R3", "the implementation's evaluation is not worse conditioned than the definition as written: when the textbook form has an a-priori "
+                   "error bound, so has the form the library evaluates")
     chk.rule("R2", "where the formula as written contains no subtraction of rounded quantities, an a-priori forward error bound (standard model, first order) holds for all positive inputs: <= 16 ulps")
     chk.rule("R1", "the implementing function exists for each numeric type and its algebraic normal form equals the textbook formula, constants included")
     chk.assumptions += ["few-ulp accuracy is decided only by R2's a-priori bound where no cancellation can occur; formulas with a subtraction of rounded intermediates (listed in coverage) are NOT decided",
@@ -101,6 +103,18 @@ def run(chk):
                         else:
                             worst = max(worst, b)
                     inst2 = "%s | %s" % (name, sig)
+                    # R3: conditioning must not be worse than that of the definition as written in the oracle
+                    if undec:
+                        try:
+                            wants = list(want) if isinstance(want, sympy.MatrixBase) else [want]
+                            ob = [errdom.err(errdom.term_of_sympy(w), T, signs)[0] for w in wants if w != 0]
+                            if ob and all(b is not None for b in ob):
+                                chk.violated("R3", inst2, "the definition as written has an a-priori error bound of %.1f u for all inputs, but the implementation "
+                                                          "evaluates it in a form with a subtraction of rounded intermediates (no bound: catastrophic "
+                                                          "cancellation for some inputs), e.g. %s" % (float(max(ob)), ev.show([t for _, t in ev.flatten(val)][0])[:160]), loc)
+                                continue
+                        except (ValueError, AttributeError):
+                            pass
                     if undec:
                         undecided.append(inst2)
                     elif worst > 16:
